@@ -226,6 +226,8 @@ def gen_problem(rng, with_transform):
         bc = rng.choice([[[0, 0], [1, 0]], [[0, 0], [1, 1]], [[0, 1], [1, 0]]])
     else:
         bc = rng.choice([[[0, 0], [0, 1], [1, 0]], [[0, 0], [1, 0], [1, 1]], [[0, 0], [0, 1], [0, 2]]])
+    bc = [list(c) for c in bc]
+    rng.shuffle(bc)  # the order in which the caller lists the conditions is arbitrary (upper end first, interleaved, ...)
     alts = gen_alternates(rng, tspec, rng.choice([0, 1, 2, 2])) if tspec is not None and tspec[0] != "identity" else []
     return {"order": order, "a": round(a, 4), "b": round(b, 4), "terms": terms, "coeffs": coeffs, "bc": bc, "tspec": tspec, "alts": alts,
             "n": rng.randint(8, 30), "tol": rng.choice([1e-4, 1e-6, 1e-6])}
